@@ -93,3 +93,11 @@ Example C03_nonvacuous :
     AReturn {| r_ast := true; r_decls := true; r_defs := true; r_iter := true; r_output := false; r_error := true |} [KError] /\
   r_output (match assemble unit (fun _ _ _ => (Some tt, [KNote])) (fun _ => true) modelled_shape 1 tt [] with AReturn a _ => a | _ => empty_result end) = true.
 Proof. repeat split; vm_compute; reflexivity. Qed.
+
+(* ===== the line/directive parser model: fuel never changes an answer, it only allows one (no answer depends on the
+   amount of fuel; sufficiency of the chosen fuel is monitored at run time: a FUEL answer is a violation) ===== *)
+From CA Require Import Model.Lexer Model.Parser Model.AsmAst Model.AsmParser Proofs.AsmParserP.
+Theorem C03_parse_total_partial : forall (t : text) (f f' : nat), (f <= f')%nat ->
+  parse_lines f 0 false (start_walker t) nil <> PFuel ->
+  parse_lines f' 0 false (start_walker t) nil = parse_lines f 0 false (start_walker t) nil.
+Proof. exact AsmParserP.C03_parse_total_partial. Qed.
